@@ -4,6 +4,8 @@
 (* outcomes.  One JSON object per run in IOEnv.OUT_FILE:                                 *)
 (*   {id, status, accepted, nevents, wall_ms, limit_ms, leafs, sched, warned, inHorizon,  *)
 (*    mustReject}   mustReject: braces / macro brackets of the text do not balance outside *)
+(*                  strings and comments, or two properties under one parent carry the    *)
+(*                  same id (established without the parser): no schedule may be produced  *)
 (*    strings and comments (a lexical fact established without the parser): no parse exists *)
 (* status: "rejected" (the parser raised, nothing was scheduled)                          *)
 (*         "ok"       (parse + schedule returned)                                         *)
@@ -23,7 +25,7 @@ Schedule(r) == r.status = "ok" /\ r.accepted /\ r.wall_ms <= r.limit_ms
                /\ r.inHorizon /\ (r.sched < r.leafs => r.warned)
 \* a text that cannot be grammatical is rejected, never scheduled in part
 Admissible(r) == (Reject(r) \/ Schedule(r)) /\ (r.mustReject => Reject(r))
-Why(r) == IF r.mustReject /\ r.accepted /\ r.status = "ok" THEN "a text whose braces / macro brackets do not balance was accepted: partial schedule"
+Why(r) == IF r.mustReject /\ r.accepted /\ r.status = "ok" THEN "a text that cannot be a project (unbalanced braces / macro brackets, or an id defined twice under one parent) was accepted and scheduled"
           ELSE IF r.status = "hang" THEN "no termination within the bound"
           ELSE IF r.status = "crash" THEN "internal error after the parser accepted the text"
           ELSE IF r.status = "rejected" THEN "rejected input left schedule events behind"
